@@ -53,7 +53,7 @@ def has_nan(t, v):
 
 
 def holes(t, v, flags):
-    """which of the three known holes a value touches, and whether the library's format can carry it at all"""
+    """which of the three FORMER holes (repaired: fixed C16-a/b/c) a value touches - kept as coverage labels - and whether the library's format can carry it at all"""
     k = t[0]
     if k == 'dict':
         if v is None: flags.add('none-for-allownone'); return
@@ -125,7 +125,7 @@ def run(ctx):
             try:
                 lt.write_to_stream(st, py, h); wrote = st.getvalue(); got = 'OK ' + (wrote.hex() or '-')
             except Exception as e:
-                wrote = None; got = 'ERR ' + {'struct': 'struct', 'notimpl': 'notimpl', 'key': 'key'}.get(impl.err_name(e), 'type' if isinstance(e, TypeError) else 'struct' if isinstance(e, OverflowError) else impl.err_name(e))
+                wrote = None; got = 'ERR ' + {'struct': 'struct', 'notimpl': 'notimpl', 'key': 'key'}.get(impl.err_name(e), 'type' if isinstance(e, TypeError) else 'struct' if isinstance(e, OverflowError) else 'value' if isinstance(e, ValueError) else impl.err_name(e))
             flags = set(); holes(t, v, flags)
             nontriv = gen_types.depth_of(t) >= 1 or t[0] in ('string', 'blob')
             ctx.case((s, gen_types.enc_of(t, v)[:200], h) if nontriv else None)
@@ -185,7 +185,7 @@ def run(ctx):
                     rd = io.BytesIO(st.getvalue()); a, kw = m.create_from_stream(rd)
                     if [impl.canon_t(x, arg.type) for x, arg in zip(a, m._arguments)] != [gen_types.canon_of(t, v) for t, v in zip(ts, vals)] or rd.tell() != len(st.getvalue()):
                         flags = set(); [holes(t, v, flags) for t, v in zip(ts, vals)]
-                        if 'non-ascii-text' not in flags: bad_args = dict(types=[impl.type_syntax(t) for t in ts], values=[gen_types.canon_of(t, v) for t, v in zip(ts, vals)])
+                        bad_args = dict(types=[impl.type_syntax(t) for t in ts], values=[gen_types.canon_of(t, v) for t, v in zip(ts, vals)])
             except RuntimeError:
                 if len(give) == len(ts): bad_args = dict(types=[impl.type_syntax(t) for t in ts], refused_with_correct_count=True)
             except Exception:
